@@ -265,7 +265,7 @@ def run_render_execution(sc, chooser, root, timeout=30.0):
         page, ctx = sc["threads"][name]
         S.spawn(name, worker(name, page, ctx))
     status = S.run()
-    S.log({"th": "sched", "ev": "finish", "status": status, "blocked": list(S.blocked),
+    S.log({"th": "sched", "ev": "finish", "status": status, "blocked": list(S.blocked), "mutex": lk._mutex.owner or "free",
            "coll": len(lk._collection) if cap else 0, "uric": len(lk._uri_cache) if cap else 0})
     return {"events": S.trace, "status": status, "schedule": _compress([d["chosen"] for d in S.decisions]),
             "points": len(S.decisions), "lines": tr.lines}
@@ -412,27 +412,44 @@ def judge_renders(run, jobs, outs, tw, tlc_pool):
             tid += 1
             g["traces"].append(dict(hdr, id=tid, events=ex["events"], schedule=ex["schedule"], job=ji))
     glist = list(groups.values())
-    if not [g for g in glist if g["sc"]["cap"] and g["traces"]]:
+    if not any(g["traces"] for g in glist):
         if run.violations:
             return lambda: None
         raise MachineryError("no render schedules recorded")
-    g0 = [g for g in glist if g["sc"]["cap"] and g["traces"]][0]
-    t = g0["traces"][0]
-    ends = [i for i, e in enumerate(t["events"]) if e["ev"] == "end"]
-    marks = [i for i, e in enumerate(t["events"]) if e["ev"] == "mark"]
-    a = copy.deepcopy(t)
-    a["id"] = 10 ** 6 + 1
-    a["events"][ends[0]]["out"][2] = "Z"                 # somebody else's context value in the output
-    b = copy.deepcopy(t)
-    b["id"] = 10 ** 6 + 2
-    b["events"][marks[len(marks) // 2]]["depth"] += 1       # a buffer that is not the thread's own
-    c = copy.deepcopy(t)
-    c["id"] = 10 ** 6 + 3
-    c["events"][-1]["coll"] = 9                            # collection beyond its bound
-    d = copy.deepcopy(t)
-    d["id"] = 10 ** 6 + 4
-    del d["events"][marks[1]]                              # a mark that did not happen
-    g0["ncs"] = [a, b, c, d]
+    def usable(t):      # a trace fit for deriving negative controls: everybody returned normally with some output
+        ends = [e for e in t["events"] if e["ev"] == "end"]
+        marks = [e for e in t["events"] if e["ev"] == "mark"]
+        fin = t["events"][-1]
+        return (len(ends) == len(t["page"]) and all(not e.get("exc") and len(e["out"]) > 2 for e in ends) and len(marks) > 2
+                and fin.get("ev") == "finish" and fin.get("status") == "ok")
+    cands = [(g, t) for g in glist if g["sc"]["cap"] for t in g["traces"] if usable(t)]
+    if not cands:
+        if run.violations:
+            return lambda: None
+        # nothing finished normally: validate what there is (the trace spec judges it); no controls possible
+        cands = None
+    ncs_for = None
+    if cands:
+        g0, t = cands[0]
+        ncs_for = g0
+        ends = [i for i, e in enumerate(t["events"]) if e["ev"] == "end"]
+        marks = [i for i, e in enumerate(t["events"]) if e["ev"] == "mark"]
+        a = copy.deepcopy(t)
+        a["id"] = 10 ** 6 + 1
+        a["events"][ends[0]]["out"][2] = "Z"                 # somebody else's context value in the output
+        b = copy.deepcopy(t)
+        b["id"] = 10 ** 6 + 2
+        b["events"][marks[len(marks) // 2]]["depth"] += 1       # a buffer that is not the thread's own
+        c = copy.deepcopy(t)
+        c["id"] = 10 ** 6 + 3
+        c["events"][-1]["coll"] = 9                            # collection beyond its bound
+        d = copy.deepcopy(t)
+        d["id"] = 10 ** 6 + 4
+        del d["events"][marks[1]]                              # a mark that did not happen
+        e = copy.deepcopy(t)
+        e["id"] = 10 ** 6 + 5
+        e["events"][-1]["mutex"] = "A"                         # the lookup's lock left held at the end
+        ncs_for["ncs"] = [a, b, c, d, e]
 
     def validate(g):
         traces = g["traces"] + g["ncs"]
@@ -473,6 +490,8 @@ def judge_renders(run, jobs, outs, tw, tlc_pool):
             pts = [ex["points"] for ex in o["execs"]]
             if job["name"] in summary:
                 summary[job["name"]]["avg_scheduling_points"] = sum(pts) // max(1, len(pts))
+        if ncs_for is None and not run.violations:
+            raise MachineryError("no render trace fit for negative controls")
         run.extra["render_schedules"] = summary
         j0, o0 = jobs[0], outs[0]
         if o0["execs"]:
